@@ -140,22 +140,61 @@ extern "C" void harness_c18_pstrtod_nodigits() {
   WITNESS();
 }
 
-// ---- Grisu boundaries: m- / m+ of a double are the exact midpoints to its neighbours
+// ---- independent IEEE-754 binary64 decoding of a finite bit pattern: value = f * 2^e exactly
+//      (biased exponent 0: no hidden bit, fixed exponent -1074; otherwise hidden bit and biased_e - 1075)
+static inline void ieee_decode(unsigned long bits, unsigned long *f, long *e) {
+  unsigned long be = (bits >> 52) & 0x7ff;
+  unsigned long mant = bits & 0xfffffffffffffUL;
+  if (be == 0) { *f = mant; *e = -1074; }
+  else { *f = mant | 0x10000000000000UL; *e = (long)be - 1075; }
+}
+
 void DiyFp_from_double(DiyFpLike *self, double d) asm("_ZN5DiyFpC2Ed");
 void NormalizedBoundaries_real(const DiyFpLike *self, DiyFpLike *minus, DiyFpLike *plus) asm("_ZNK5DiyFp20NormalizedBoundariesEPS_S0_");
+
+// ---- DiyFp(double): the real constructor decodes EVERY finite double exactly (zero, subnormals, normals, both signs:
+//      DiyFp ignores the sign bit, Grisu2 is only called on |value|)
+extern "C" void harness_c18_diyfp() {
+  unsigned long bits = nondet_ulong();
+  unsigned long be = (bits >> 52) & 0x7ff;
+  ASSUME(be != 0x7ff);                                           // finite
+  union { double d; unsigned long u; } v;
+  v.u = bits;
+  DiyFpLike w;
+  w.f = 0xdeadbeefUL; w.e = 12345;
+  DiyFp_from_double(&w, v.d);
+  unsigned long f; long e;
+  ieee_decode(bits, &f, &e);
+  ASSERT(w.f == f, "C18 DiyFp(double) significand: hidden bit exactly for normal doubles, none for subnormals");
+  ASSERT(w.e == (int)e, "C18 DiyFp(double) exponent: biased_e - 1075 for normals, -1074 for subnormals (f * 2^e is the double)");
+  // the decomposition is injective on the magnitude: recompose the bit pattern from (f, e)
+  unsigned long back = (w.f >> 52) ? (((unsigned long)(w.e + 1075) << 52) | (w.f & 0xfffffffffffffUL)) : w.f;
+  ASSERT(back == (bits & 0x7fffffffffffffffUL), "C18 DiyFp(double) recomposes to the magnitude bit pattern");
+  WITNESS();
+}
+
+// ---- Grisu boundaries: m- / m+ of a double are the exact midpoints to its neighbours
+// Domain: every positive finite non-zero double below the top binade edge: subnormals (biased exponent 0, mantissa != 0),
+// the smallest normal binade, and all normals whose successor is finite.
+// Precondition of the real NormalizedBoundaries: f != 0 (NormalizeBoundary loops forever on 0 and (f<<1)-1 wraps);
+// pdtoa() handles 0.0 before calling Grisu2, so the precondition holds at the only call site.
 extern "C" void harness_c18_boundaries() {
   unsigned long bits = nondet_ulong();
   unsigned long ex = (bits >> 52) & 0x7ff;
-  ASSUME((bits >> 63) == 0 && ex >= 2 && ex <= 0x7fd);          // positive normal, neighbours normal too
+  ASSUME((bits >> 63) == 0 && ex <= 0x7fd && bits != 0);          // positive, non-zero, successor finite
+#ifdef C18_NORMAL_ONLY
+  ASSUME(ex >= 2);
+#endif
   union { double d; unsigned long u; } v, lo, hi;
-  v.u = bits; lo.u = bits - 1; hi.u = bits + 1;                   // predecessor and successor doubles
+  v.u = bits; lo.u = bits - 1; hi.u = bits + 1;                   // predecessor and successor doubles (lo may be +0)
   DiyFpLike w, m, p;
   DiyFp_from_double(&w, v.d);
   NormalizedBoundaries_real(&w, &m, &p);
-  // significands with the hidden bit and unbiased exponents (value = f * 2^e)
-  unsigned long fv = (bits & 0xfffffffffffffUL) | 0x10000000000000UL;  long ev = (long)ex - 1075;
-  unsigned long fl = (lo.u & 0xfffffffffffffUL) | 0x10000000000000UL;  long el = (long)((lo.u >> 52) & 0x7ff) - 1075;
-  unsigned long fh = (hi.u & 0xfffffffffffffUL) | 0x10000000000000UL;  long eh = (long)((hi.u >> 52) & 0x7ff) - 1075;
+  // significands and unbiased exponents (value = f * 2^e), decoded independently of the code under test
+  unsigned long fv, fl, fh; long ev, el, eh;
+  ieee_decode(bits, &fv, &ev);
+  ieee_decode(lo.u, &fl, &el);
+  ieee_decode(hi.u, &fh, &eh);
   ASSERT(w.f == fv && w.e == (int)ev, "C18 DiyFp(double) decomposes the double exactly");
   // midpoints scaled to the exponent e0 = min(e) - 1:  mid = (a*2^ea + b*2^eb) / 2
   long e0 = (el < ev ? el : ev) - 1;
@@ -163,9 +202,23 @@ extern "C" void harness_c18_boundaries() {
   long e1 = ev - 1;                                              // eh >= ev
   unsigned long mid_hi = (fv << (ev - e1 - 1)) + (fh << (eh - e1 - 1));
   ASSERT(m.e == p.e, "C18 Grisu boundaries share one exponent");
-  ASSERT(m.e <= e0 && (e0 - m.e) < 12 && m.f == (mid_lo << (e0 - m.e)), "C18 lower Grisu boundary is the midpoint to the predecessor double");
-  ASSERT(p.e <= e1 && (e1 - p.e) < 12 && p.f == (mid_hi << (e1 - p.e)), "C18 upper Grisu boundary is the midpoint to the successor double");
+  ASSERT(p.e <= e1 && (e1 - p.e) < 64 && p.f == (mid_hi << (e1 - p.e)) && ((mid_hi << (e1 - p.e)) >> (e1 - p.e)) == mid_hi,
+         "C18 upper Grisu boundary is the midpoint to the successor double");
   ASSERT((p.f >> 63) == 1, "C18 upper Grisu boundary is normalised");
+  ASSERT(ex == 0 || (e1 - p.e) == 10, "C18 a normal double's boundaries are scaled by exactly 2^10");
+  if (bits == 0x0010000000000000UL) {
+    // DBL_MIN: the real code treats every f == 2^52 as a binade edge with a narrower lower gap, but the predecessor
+    // (largest subnormal) is at the SAME distance as the successor.  The real lower boundary v - 2^-1076 is inside
+    // the true rounding interval (tighter than the midpoint v - 2^-1075): sound for round-trip, possibly not shortest.
+    // Claimed here: the boundary lies in [midpoint, v).
+    unsigned long vs = fv << (ev - e0);                            // v at exponent e0
+    ASSERT(m.e <= e0 && (e0 - m.e) < 64 && m.f >= (mid_lo << (e0 - m.e)) && m.f < (vs << (e0 - m.e)),
+           "C18 lower Grisu boundary of DBL_MIN lies between the midpoint to the predecessor and the value");
+  } else {
+    ASSERT(m.e <= e0 && (e0 - m.e) < 64 && m.f == (mid_lo << (e0 - m.e)) && ((mid_lo << (e0 - m.e)) >> (e0 - m.e)) == mid_lo,
+           "C18 lower Grisu boundary is the midpoint to the predecessor double");
+  }
+  ASSERT(m.f < p.f, "C18 Grisu interval is non-empty");
   WITNESS();
 }
 
